@@ -12,8 +12,10 @@ class MachineryError(Exception):
     """TLC crashed / trace not consumed / vacuity guard: exit code 2, never a violation."""
 
 
-def _java(xss="512m", heap=None):
+def _java(xss="512m", heap=None, gcthreads=None):
     cmd = ["java", "-XX:+UseParallelGC", "-Xss" + xss]
+    if gcthreads:
+        cmd.append("-XX:ParallelGCThreads=%d" % gcthreads)
     if heap:
         cmd.append("-Xmx" + heap)
     cmd += ["-cp", JARS, "tlc2.TLC"]
@@ -100,7 +102,7 @@ def judge_shard(path, module="TraceJudge", cfg="TraceJudge.cfg", timeout=3600, x
     """Run the trace specification over one ndjson file. Returns (n_events, bad: {id: [clauses]})."""
     wd = workdir("tr")
     try:
-        cmd = _java(xss=xss) + ["-workers", "1", "-metadir", os.path.join(wd, "meta"), "-noGenerateSpecTE",
+        cmd = _java(xss=xss, heap="3g", gcthreads=2) + ["-workers", "1", "-metadir", os.path.join(wd, "meta"), "-noGenerateSpecTE",
                          "-config", os.path.join(CFG, cfg), os.path.join(SPEC, module + ".tla")]
         env = dict(os.environ)
         env["TRACE_FILE"] = path
